@@ -91,3 +91,17 @@ Definition raft_recovered_ok_b (g : N) (ops : list wop) (r : res obs) : bool :=
                 forallb (fun ie => negb (trunc <? fst ie) || existsb (ient_eqb ie) (o_ents o)) (a_log a)
       end
   end.
+
+(** ** hypotheses of the partial theorems *)
+(** memtable ids handed out by NewMemtable grow *)
+Fixpoint fresh_rotations (cur : N) (ops : list wop) : Prop :=
+  match ops with
+  | [] => True
+  | WRotate n :: ops' => cur < n /\ fresh_rotations n ops'
+  | _ :: ops' => fresh_rotations cur ops'
+  end.
+
+Definition is_raft_op (o : wop) : bool :=
+  match o with WAppend _ _ _ | WSetHs _ _ | WCompact _ _ => true | _ => false end.
+Definition no_raft (ops : list wop) : bool := forallb (fun o => negb (is_raft_op o)) ops.
+
